@@ -106,6 +106,7 @@ type FnEnc struct {
 	modAllowedDone bool
 	symCache  map[int][]string
 	pruneMu   sync.Mutex
+	fvPtrs    map[string]Val // closures: captured variable name -> address of its cell
 	loopPre   map[*loopInfo]*State
 	exitState *State
 	specHeapUse []map[string]bool
@@ -635,7 +636,16 @@ func (e *FnEnc) typeFacts(v Val) string {
 }
 
 func (e *FnEnc) strLen(s string) string {
+	first := !e.ufs["str_len"]
 	f := e.uf("str_len", []string{"Int"}, e.sorter.idxSort())
+	if first && !e.ufs["str_len"] {
+		first = false
+	}
+	if first {
+		if _, ok := e.strLits[""]; !ok {
+			e.strLit("")
+		}
+	}
 	return "(" + f + " " + s + ")"
 }
 func (e *FnEnc) strAt(s, i string) string {
@@ -653,6 +663,10 @@ func (e *FnEnc) strLit(s string) string {
 	}
 	// distinct negative ids for literals; empty string is 0... keep "" = id -1 too (nil has no meaning for strings)
 	id := fmt.Sprintf("(- %d)", len(e.strLits)+1)
+	if s == "" {
+		// the empty string is id 0, so that zero values of strings nested in structs and arrays are ""
+		id = "0"
+	}
 	e.strLits[s] = id
 	e.specDefs = append(e.specDefs, fmt.Sprintf("(assert (= %s %s))", e.strLen(id), e.idxConst(int64(len(s)))))
 	if len(s) <= 64 {
